@@ -12,8 +12,8 @@ from pathlib import Path
 from typing import Any, Callable, Iterable, Optional
 
 VERIF_DIR = Path(__file__).resolve().parent.parent
-EVIDENCE_DIR = VERIF_DIR / 'evidence'
-REPLAY_DIR = VERIF_DIR / 'replays'
+EVIDENCE_DIR = Path(os.environ.get('VERIF_EVIDENCE_DIR') or (VERIF_DIR / 'evidence'))
+REPLAY_DIR = Path(os.environ.get('VERIF_REPLAY_DIR') or (VERIF_DIR / 'replays'))
 KNOWN_FINDINGS = VERIF_DIR / 'known_findings.json'
 EVIDENCE_SCHEMA = Path('/root/.vp/EVIDENCE.schema.json')
 LABTECH_SRC = Path(os.environ.get('LABTECH_SRC', '/repo'))
